@@ -5212,6 +5212,10 @@ class DfaCompileCtx:
             if next_target is None or next_target.is_fallthrough:
                 continue
 
+            # actions placed behind one that returns to the caller (a yield) would never run: the parser resumes in the target state
+            if len(next_target.actions) > 0 and any(x.may_return_early() for x in transition.actions):
+                continue
+
             # Are there actions? If so, does this violate the threshold
             if len(next_target.actions) > 0:
                 max_count = ProgramData.option(ProgramOption.MAX_SHORTCIRCUIT_FALLTHROUGH) - ProgramData.option(ProgramOption.MAX_SHORTCIRCUIT_ACTION_PENALTY)*(len(next_target.actions)-1)
@@ -5252,6 +5256,10 @@ class DfaCompileCtx:
             # an action which can run out of space redirects _without_ consuming; moving it onto a consuming transition would
             # un-consume (and re-dispatch to the handler) a character that was already matched
             if not transition.is_fallthrough and any(x.get_target_override_mode() == ActionOverrideMode.MAY_GOTO_TARGET for x in to_replace.actions):
+                continue
+
+            # (same as above: nothing may be queued behind a yield)
+            if len(to_replace.actions) > 0 and any(x.may_return_early() for x in transition.actions):
                 continue
 
             if len(to_replace.actions) > 0:
